@@ -504,6 +504,18 @@ def r2_explicit(program, rep):
     cmps = [(t, p) for t, p in rf if t[0] == "cmp" and
             t[1] in ("Lt", "LtE") and any(
                 st == OS for st in subterms(t))]
+    if not cmps and any(any(st == OS for st in subterms(t)) and
+                        t not in (is_none(OS),) and
+                        not (t[0] == "cmp" and t[1] in ("Is", "IsNot"))
+                        for t, p in rf) and not any(
+            st[0] == "cmp" and st[1] in ("Lt", "LtE", "Gt", "GtE") and
+            any(x == OS for x in subterms(st))
+            for t, p in rf for st in subterms(t)):
+        # tested, but not by comparing the ends of the two ranges (sets of
+        # bits intersected, ...)
+        raise AnalysisError("add_field: the overlap of two fields is tested "
+                            "in a form other than comparisons of their "
+                            "ends; not analysed")
     end_p = END
     oend_p = _poly(fl, ("binop", "Add", OS,
                         ("or", ("attr", OTHER, "length"), ("const", 1))))
@@ -762,8 +774,9 @@ def r4_order(program, rep):
     c2 = [c for c in calls_in(rec, "_assign_fields")]
     okf = len(c1) == 1 and len(c2) == 1
     if okf:
-        kw1 = {k.arg: k.value for k in c1[0].keywords}
-        kw2 = {k.arg: k.value for k in c2[0].keywords}
+        from ..util import bind
+        af = program.get(BF + "._assign_fields")
+        kw1, kw2 = bind(c1[0], af), bind(c2[0], af)
         okf = isinstance(kw1.get("assign_positions"), ast.Constant) and \
             kw1["assign_positions"].value is False and \
             isinstance(kw2.get("assign_positions"), ast.Constant) and \
